@@ -29,6 +29,7 @@ type caseResult struct {
 	compared   int
 	key        string
 	nontrivial bool
+	fatal      string
 	logLen     int
 	wall       time.Duration
 }
@@ -343,7 +344,29 @@ func analyse(sc Scenario, out *outcome, drv *lib.Driver) *caseResult {
 		cr.hits["feed:newHead"] += len(gotN)
 		cr.hits["feed:reorg"] += len(gotG)
 	}
-	if sc.Plugin {
+	// did the directed interleaving happen? a valid successor block of an EARLIER chain of the source
+	// (fetched before the reorg) exists for a block of the new chain that was stored, and that block
+	// stayed (the code asked for it before reverting)
+	{
+		staleFor := map[string]bool{}
+		for li, e := range out.log {
+			if e.Kind == eStored && staleSuccessor(out.log, e) {
+				staleFor[e.Hash.String()] = true
+				_ = li
+			}
+			if e.Kind == eReverted {
+				delete(staleFor, e.Hash.String())
+			}
+		}
+		if len(staleFor) > 0 {
+			cr.hits["race:stale-successor-of-a-stored-new-head-existed(head kept)"]++
+		} else if sc.Kind == "race" {
+			cr.hits["race:degenerate(no parallel fetchers in time)"]++
+		}
+	}
+	if sc.Plugin && len(failedRevert) == 0 {
+		// (the plugin is told BEFORE RevertHead: after a failed RevertHead it has seen a revert that did
+		// not happen — outside the property, which assumes RevertHead succeeds)
 		checkPlugin(out.plugin, out.log, viol, cr.hits)
 	}
 	if sc.ReadOnly {
@@ -494,7 +517,14 @@ func analyse(sc Scenario, out *outcome, drv *lib.Driver) *caseResult {
 					}
 				}
 			}
+			if a == "bad-op" {
+				cr.fatal = fmt.Sprintf("the driver answered bad-op to %q", lines[li])
+			}
 			ans = append(ans, a)
+		}
+		if err != nil {
+			cr.fatal = "Lean driver died or answered short during the acceptor run: " + err.Error()
+			return cr
 		}
 		cr.answers = ans
 		for i, a := range ans {
@@ -590,7 +620,9 @@ func analyse(sc Scenario, out *outcome, drv *lib.Driver) *caseResult {
 		for k, v := range ih {
 			cr.hits[k] += v
 		}
-		if diff != "" {
+		if strings.HasPrefix(diff, "driver") || strings.HasPrefix(diff, "impl-init") {
+			cr.fatal = "Impl replay: " + diff
+		} else if diff != "" {
 			cr.mismatches = append(cr.mismatches, lib.Mismatch{Sig: "impl-replay-differs", Input: replay(), Model: diff, Impl: "observed on the real synchroniser"})
 		}
 	}
@@ -954,7 +986,7 @@ func main() {
 			err = json.Unmarshal(raw, &rp)
 		}
 		if err != nil {
-			res.Note("cannot read replay: %v", err)
+			res.Fatalf("cannot read replay: %v", err)
 			lib.Finish(f, res)
 		}
 		if len(rp.Replay.FeedOps) > 0 { // a deterministic feed.Feed operation sequence
@@ -1015,14 +1047,14 @@ func main() {
 				defer wg.Done()
 				drv, err := lib.StartDriver(f.Driver)
 				if err != nil {
-					res.Note("driver: %v", err)
+					res.Fatalf("Lean driver did not start: %v", err)
 					drv = nil
 				} else {
 					defer drv.Close()
 					// developer aid for self-tests against a repaired tree: C06_MODEL_CFG="1 1 1 1 1"
 					if c := os.Getenv("C06_MODEL_CFG"); c != "" {
 						if a, err := drv.Ask("cfg " + c); err != nil || a != "ok" {
-							res.Note("cfg: %v %v", a, err)
+							res.Fatalf("driver refused cfg: %v %v", a, err)
 						}
 					}
 				}
@@ -1072,7 +1104,19 @@ func main() {
 	}
 	js, _ := json.Marshal(slowSc)
 	res.Note("slowest case %.2fs: %s", slowest.Seconds(), js)
+	analysed, skipped := 0, 0
 	for _, cr := range results {
+		if cr.key == "skipped" {
+			// not run (too many hangs / lost notifications before it): a violation is on record already
+			skipped++
+			continue
+		}
+		if cr.fatal != "" {
+			res.Fatalf("%s (case %s)", cr.fatal, cr.key)
+		}
+		if cr.compared > 0 {
+			analysed++
+		}
 		res.Case(cr.key, cr.nontrivial)
 		res.Compared(cr.compared)
 		for _, m := range cr.mismatches {
@@ -1113,10 +1157,20 @@ func main() {
 			res.Sample(6, map[string]any{"scenario": cr.sc, "commits": cr.hits["commit:stored"] + cr.hits["commit:reverted"]})
 		}
 	}
+	if f.Replay == "" && res.Distribution["kind:race"] > 0 && res.Distribution["violations"] == 0 &&
+		res.Distribution["race:stale-successor-of-a-stored-new-head-existed(head kept)"] == 0 && len(res.Violations) == 0 {
+		res.Fatalf("none of the %d directed race cases produced the interleaving (old successor in flight while the new head is stored)", res.Distribution["kind:race"])
+	}
+	if skipped > 0 {
+		res.Note("%d cases not run after repeated hangs / lost notifications (violations recorded above)", skipped)
+	}
+	if n := len(results) - skipped; analysed*10 < n*9 && len(res.Violations) == 0 {
+		res.Fatalf("only %d of %d synchroniser runs were validated by the Lean acceptor / Impl replay", analysed, n)
+	}
 	if f.Replay == "" {
 		drv, err := lib.StartDriver(f.Driver)
 		if err != nil {
-			res.Note("driver: %v", err)
+			res.Fatalf("Lean driver did not start: %v", err)
 			drv = nil
 		}
 		checkFeeds(f, res, drv)
